@@ -35,3 +35,101 @@ CONTRACTS = {
         properties=["C01"], battery="names",
     ),
 }
+
+
+# ------------------------------------------------------------------ C04
+from mingus.core import keys  # noqa: E402
+from contracts.core_keys import KEYS30  # noqa: E402
+
+
+def c04_key_facts(key):
+    """everything the property says about one key, gathered through the public functions"""
+    return (keys.get_notes(key), keys.get_key_signature(key), keys.get_key_signature_accidentals(key))
+
+
+def c04_signature_roundtrip(n):
+    k = keys.get_key(n)
+    return (keys.get_key_signature(k[0]), keys.get_key_signature(k[1]))
+
+
+def c04_key_roundtrip(key):
+    return keys.get_key(keys.get_key_signature(key))
+
+
+def c04_relatives(major):
+    minor = keys.relative_minor(major)
+    return (minor, keys.relative_major(minor), keys.get_notes(major), keys.get_notes(minor))
+
+
+_BIND_KEYS = [{"bind": {"key": k}} for k in KEYS30]
+
+CONTRACTS.update({
+    L + "c04_key_facts": dict(
+        params={"key": "str"}, requires="is_key(key)",
+        returns="([str,str,str,str,str,str,str],int,list[str])",
+        ensures=[
+            ("starts-on-tonic", "result[0][0] == tonic_of(key)"),
+            ("every-letter-once-in-order", "consecutive_letters(result[0]) and len(result[0]) == 7"),
+            ("step-pattern", "step_pattern(result[0]) == ([2, 1, 2, 2, 1, 2, 2] if key[0] in 'abcdefg' "
+                             "else [2, 2, 1, 2, 2, 2, 1])"),
+            ("accidentals-are-the-signature", "altered(result[0]) == sorted_list(result[2])"),
+            ("count-and-sign", "len(result[2]) == abs(result[1]) and "
+                               "all([(a[1] == '#') == (result[1] > 0) for a in result[2]])"),
+            ("circle-of-fifths-order", "letters_of(result[2]) == ('FCGDAEB'[:result[1]] if result[1] >= 0 "
+                                       "else 'BEADGCF'[:-result[1]])"),
+        ],
+        split=_BIND_KEYS, properties=["C04"], battery="keys30"),
+    L + "c04_signature_roundtrip": dict(
+        params={"n": "int"}, requires="-7 <= n and n <= 7", returns="(int,int)",
+        ensures=[("signature-of-key-of-n-is-n", "result[0] == n and result[1] == n")],
+        split=[{"bind": {"n": i}} for i in range(-7, 8)], properties=["C04"], battery="small_ints"),
+    L + "c04_key_roundtrip": dict(
+        params={"key": "str"}, requires="is_key(key)", returns="(str,str)",
+        ensures=[("key-of-signature-of-key-contains-key", "key == result[0] or key == result[1]")],
+        split=_BIND_KEYS, properties=["C04"], battery="keys30"),
+    L + "c04_relatives": dict(
+        params={"major": "str"}, requires="is_major_key(major)",
+        returns="(str,str,[str,str,str,str,str,str,str],[str,str,str,str,str,str,str])",
+        ensures=[("inverse", "result[1] == major"),
+                 ("same-note-set", "sorted_list(result[2]) == sorted_list(result[3])"),
+                 ("minor-tonic-nine-semitones-above", "semis(tonic_of(major), tonic_of(result[0])) == 9")],
+        split=[{"bind": {"major": k}} for k in KEYS30[0::2]], properties=["C04"], battery="major15"),
+})
+
+
+# ------------------------------------------------------------------ C03
+from mingus.core import intervals  # noqa: E402
+
+
+def c03_up_then_down(note, sh):
+    return intervals.from_shorthand(intervals.from_shorthand(note, sh, True), sh, False)
+
+
+def c03_name_then_apply(n1, n2):
+    return intervals.from_shorthand(n1, intervals.determine(n1, n2, True), True)
+
+
+_SMALL = "canon({0}) and abs(net({0})) <= 2"
+
+CONTRACTS.update({
+    L + "c03_up_then_down": dict(
+        params={"note": "str", "sh": "str"},
+        requires=[("name-up-to-double-accidentals", _SMALL.format("note")),
+                  ("shorthand-up-to-two-accidentals",
+                   "is_interval_shorthand(sh) and len(sh) <= 3 and "
+                   "(cnt_sharp(sh, 0, len(sh) - 1) == 0 or cnt_flat(sh, 0, len(sh) - 1) == 0)")],
+        returns="str",
+        ensures=[("returns-the-starting-name", "shape(result, note[0], net(note))")],
+        split=[{"assume": "sh[len(sh) - 1] == %r" % d} for d in "1234567"],
+        notes="shape(s, L, j) pins a string completely (letter L then |j| equal accidentals); the start note is "
+              "canonical, so shape(result, note[0], net(note)) is string equality with note",
+        properties=["C03"], battery="canon_name_shorthand"),
+    L + "c03_name_then_apply": dict(
+        params={"n1": "str", "n2": "str"},
+        requires=[("names-up-to-double-accidentals", _SMALL.format("n1") + " and " + _SMALL.format("n2")),
+                  ("distance-0-to-11", "0 <= asc_distance(n1, n2) and asc_distance(n1, n2) <= 11")],
+        returns="str",
+        ensures=[("reproduces-the-second-note", "shape(result, n2[0], net(n2))")],
+        split=[{"assume": "n1[0] == %r" % a} for a in "CDEFGAB"],
+        properties=["C03"], battery="canon_pairs"),
+})
